@@ -165,6 +165,12 @@ class Ctx:
             raise PathEnd()
         self.pc.append(t)
 
+    def drain_facts(self):
+        """instantiated axioms produced inside ops (no ctx there) join the path condition"""
+        while ops.XOR8_FACTS:
+            t, f = ops.XOR8_FACTS.pop()
+            self.pc.append(f)
+
     def _relevant(self, extra):
         """cone of influence: the conjuncts of the path condition that share (transitively) an uninterpreted
         symbol with the query.  Dropping the others is sound for validity; a `sat` answer is re-confirmed
@@ -190,6 +196,7 @@ class Ctx:
         return sel, len(sel) == len(items)
 
     def _check(self, extra, rlimit, full=False):
+        self.drain_facts()
         self.queries += 1
         t0 = time.time()
         if full:
